@@ -474,8 +474,24 @@ class Program:
         return out
 
     def family(self, fn):
-        """fn plus its (nested) closures"""
-        return [fn] + [g for g in self.fns.values() if g.is_closure and g.root == fn.id and g is not fn]
+        """fn plus its (nested) closures (for an inlined view: also the closures of the helpers spliced into it)"""
+        roots = {fn.id} | set(getattr(fn, "inlined_from", ()))
+        return [fn] + [g for g in self.fns.values() if g.is_closure and g.root in roots and g is not fn]
+
+    def reach_from_callees(self, fid):
+        """functions reachable from the callees of fid (fid itself is in the result iff it is recursive)"""
+        out = set()
+        st = list(self.callees.get(fid, ()))
+        while st:
+            x = st.pop()
+            if x in out:
+                continue
+            out.add(x)
+            st.extend(self.callees.get(x, ()))
+        return out
+
+    def inlined(self, fn):
+        return inlined(self, fn)
 
     def impls_of(self, trait):
         return [i for i in self.impls if i.get("trait") == trait]
@@ -638,3 +654,117 @@ class Program:
 
 class AnchorError(Exception):
     pass
+
+
+# ---- on-demand inlining of exclusive helpers ------------------------------------------------------------------------------
+def _is_place(x):
+    return isinstance(x, list) and len(x) == 2 and isinstance(x[0], int) and not isinstance(x[0], bool) and isinstance(x[1], list) and all(isinstance(p, str) for p in x[1])
+
+
+def _remap(x, loff):
+    """copy of a statement/operand/rvalue structure with every local shifted by loff"""
+    if _is_place(x):
+        return [x[0] + loff, list(x[1])]
+    if isinstance(x, list):
+        return [_remap(y, loff) for y in x]
+    if isinstance(x, dict):
+        return dict(x)
+    return x
+
+
+def _remap_term(t, loff, boff, ret_to):
+    """copy of a terminator with locals shifted by loff and block targets by boff; `ret` becomes the pair (statements, terminator)"""
+    k = t[0]
+    b = lambda i: None if i is None else i + boff  # noqa: E731
+    if k == "goto":
+        return ["goto", b(t[1])]
+    if k == "switch":
+        return ["switch", _remap(t[1], loff), [[v, b(x)] for v, x in t[2]], b(t[3])] + list(t[4:])
+    if k == "drop":
+        return ["drop", _remap(t[1], loff), b(t[2]), b(t[3])] + list(t[4:])
+    if k == "call":
+        return ["call", t[1], _remap(t[2], loff), _remap(t[3], loff) if t[3] is not None else None, b(t[4]), b(t[5])] + list(t[6:])
+    if k == "assert":
+        return ["assert", t[1], t[2], t[3], b(t[4]), b(t[5]), _remap(t[6], loff)] + list(t[7:])
+    if k in ("yield", "falseedge"):
+        return [k, b(t[1])] + [_remap(y, loff) for y in t[2:]]
+    if k == "asm":
+        return ["asm", [b(i) for i in t[1]]] + list(t[2:])
+    if k == "ret":
+        return ret_to
+    return list(t)
+
+
+def exclusive_helpers(prog, fn):
+    """workspace functions (same crate, not trait-impl methods, not closures, not recursive) all of whose call sites lie in `fn`,
+    its closures or other exclusive helpers of `fn` — the pieces an `extract function` / `split function` refactoring produces"""
+    fam = {g.id for g in prog.family(fn)}
+    helpers = {}
+    changed = True
+    while changed:
+        changed = False
+        scope = fam | set(helpers)
+        for gid in list(scope):
+            g = prog.fns[gid]
+            for c in g.calls:
+                for t in prog.call_targets(c):
+                    h = prog.fns.get(t)
+                    if h is None or t in scope or h.is_closure or h.crate != fn.crate or h.impl_trait or t == fn.id:
+                        continue
+                    if (c.callee.get("res") or c.callee.get("path")) != t and len(prog.call_targets(c)) != 1:
+                        continue
+                    sites = prog.call_sites.get(t, [])
+                    if sites and all((s.fn.root if s.fn.is_closure else s.fn.id) in scope for s in sites) and not any(
+                            (c2.callee.get("res") or c2.callee.get("path")) == t for g2 in prog.family(h) for c2 in g2.calls):
+                        helpers[t] = h
+                        changed = True
+    return helpers
+
+
+def inlined(prog, fn, max_rounds=4):
+    """A view of `fn` in which calls to its exclusive helpers (see exclusive_helpers) are replaced by the helper's body: a new Fn
+    whose CFG contains the helpers' blocks.  Rules about a function's protocol (what happens on every path) stay valid when a
+    maintainer extracts part of it into a private helper or splits it in two.  Returns `fn` itself when it has no such helper."""
+    helpers = exclusive_helpers(prog, fn)
+    if not helpers:
+        return fn
+    d = json.loads(json.dumps(fn.d))
+    inl = []
+    for _ in range(max_rounds):
+        did = False
+        for bi in range(len(d["blocks"])):
+            t = d["blocks"][bi]["t"]
+            if t[0] != "call":
+                continue
+            callee = t[1]
+            tid = callee.get("res") or callee.get("path")
+            h = helpers.get(tid)
+            if h is None or len(t[2]) != h.nargs:
+                continue
+            loff = len(d["locals"])
+            boff = len(d["blocks"])
+            d["locals"] = d["locals"] + list(h.locals)
+            d["names"] = d["names"] + [[n, [p[0] + loff, list(p[1])]] for n, p in h.names]
+            line = t[6] if len(t) > 6 else 0
+            blk = d["blocks"][bi]
+            for i, a in enumerate(t[2]):
+                blk["s"].append(["A", [loff + 1 + i, []], ["use", a], line, 0])
+            dest, target = t[3], t[4]
+            blk["t"] = ["goto", boff]
+            for hb in h.blocks:
+                nb = {"s": [_remap(s, loff) for s in hb["s"]], "c": hb.get("c", 0)}
+                if hb["t"][0] == "ret":
+                    if dest is not None:
+                        nb["s"].append(["A", dest, ["use", ["m", [loff, []]]], line, 0])
+                    nb["t"] = ["goto", target] if target is not None else ["unreachable"]
+                else:
+                    nb["t"] = _remap_term(hb["t"], loff, boff, None)
+                d["blocks"].append(nb)
+            inl.append(h.id)
+            did = True
+        if not did:
+            break
+    view = Fn(d, fn.crate)
+    view.inlined_from = inl
+    view.original = fn
+    return view
